@@ -18,11 +18,13 @@ PROPS["C01"]["groups"] += [
 PROPS["C01"]["groups"] += [
     # "exactly once to each matching route and to no other" while the table changes at runtime: a line is processed against
     # ONE table (C18's obligations: one snapshot load per dispatch; dispatch against two concurrent admin changes)
-    {"pkg": "table", "hdir": "table", "specs": [spec("C01/one-table-per-line", "VerifC18Readers")]},
+    {"pkg": "table", "hdir": "table", "specs": [spec("C01/one-table-per-line", "VerifC18Readers"),
+                                                 # ... and the table a dispatcher is walking does not change under it (C18's snapshot obligation)
+                                                 spec("C01/table-held-by-a-dispatcher", "VerifC18Table")]},
     {"pkg": "table", "hdir": "table", "native_optional": True, "specs": [
         spec("C01/one-table-per-line/dispatch-vs-addBlacklist+delRoute/preemptions<=2", "VerifC18Concurrent", {"kind": "blacklist", "preemptions": "2"})]},
 ]
-PROPS["C01"]["bounds"] += "; plus (shared with C18) one snapshot load per dispatch and one dispatch against an admin goroutine making two changes, at most 2 preemptions"
+PROPS["C01"]["bounds"] += "; plus (shared with C18) one snapshot load per dispatch, held snapshots unchanged by 1..2 admin operations on tables of 1..3 entries, and one dispatch against an admin goroutine making two changes, at most 2 preemptions"
 PROPS["C01"]["bounds"] += "; plus (shared with C03 / C11) filter semantics on 4 regex shapes as regex and notRegex with names 0..4 bytes, and one drop-raw aggregation scenario"
 
 PROPS["C02"]["groups"] += [
